@@ -70,5 +70,11 @@ CLAIMED["C01"] = dict(
     note="Trusted base: the effect table in sa/effects.py (114 distinct external callables reachable on this tree, each read and classified) and the CHA resolution in sa/callgraph.py; C extension behaviour of the audited-inert callables (pickletools.genops tokenises only; stdlib_list.in_stdlib reads a packaged list).",
 )
 
+CLAIMED["C19"] = dict(
+    technique="type discipline across sibling analyses: yield/return typing of every analyze(), kind inference for each AnalysisResult field by a local def-use walk, report-chain agreement, guardedness of node-attribute dereferences against the node classes the opcode handlers can emit",
+    level="Decides that every analysis produces AnalysisResult objects only, each with a Severity member, a string message and a JSON-serialisable trigger; that the report is built from severity.name, a string and detailed_results(); that the checked loader raises UnsafeFileError with the default report of the same result; and that `.id`/`.attr`/`.module`/`.names` dereferences on the analysis path are valid for every node kind fickling can emit. Exceptions that depend on operand values (e.g. a non-string STACK_GLOBAL module) are not decided.",
+    note="Trusted: the kind-inference heuristics in sa/props/c19.py (unknown kinds are not flagged); E5 summaries for which node classes exist.",
+)
+
 _NOT_YET = "checker not built yet in this session (planned per DESIGN.md section 3); nothing is claimed until it exists"
 NOT_APPLICABLE = {p: _NOT_YET for p in [f"C{i:02d}" for i in range(1, 20)]}
